@@ -44,7 +44,7 @@ Relevant(r) ==
     [] r.e = "histbounds" -> {20}
     [] OTHER -> {}
 
-TInit == ObsInit(0) /\ l = 1 /\ failed = FALSE
+TInit == ObsInit(0) /\ l = 1 /\ failed = {}
 
 Apply(r) ==
   CASE r.e = "inc"    -> ObsInc(r.id, r.o, r.v, r.inert)
@@ -63,7 +63,7 @@ Apply(r) ==
     [] r.e = "subcall" -> ObsSubCall(r.t)
     [] r.e = "subret"  -> ObsSubReturn(r.t, r.o, r.inert)
     [] r.e = "got"     -> ObsGot(r.k, r.id, r.so, r.obj)
-    [] r.e = "alloc"   -> ObsAlloc(r.k, r.id)
+    [] r.e = "alloc"   -> ObsAlloc(r.k, r.id, r.o)
     [] r.e = "histbounds" -> ObsHistBounds(r.wkind, r.wsorted, r.ukind, r.usorted)
     [] r.e = "panic" \/ r.e = "deadlock" -> ObsCrash(r.e)
     [] r.e = "rootclosecall" -> ObsRootCloseCall(r.t)
@@ -75,13 +75,14 @@ Apply(r) ==
 TNext ==
   /\ l <= Len(TraceLog)
   /\ LET r == TraceLog[l]
-         carried == IF r.e = "scn" THEN FALSE ELSE failed
+         carried == IF r.e = "scn" THEN {} ELSE failed
      IN /\ IF r.e = "scn" THEN ObsReset(r.mod) ELSE Apply(r)
         /\ l' = l + 1
-        \* judged after every event: the first broken invariant of an execution is reported once
+        \* judged after every event: every broken invariant is reported, each once per execution (a second property's
+        \* clause is not hidden behind the first one that broke)
         /\ LET b == {i \in Relevant(r) : ~(Holds(i)')} IN
-             /\ failed' = (carried \/ b # {})
-             /\ IF ~carried /\ b # {} THEN PrintT(<<"FAIL", l, CheckName(CHOOSE i \in b : TRUE)>>) ELSE TRUE
+             /\ failed' = carried \cup b
+             /\ \A i \in b \ carried : PrintT(<<"FAIL", l, CheckName(i)>>)
 
 TraceSpec == TInit /\ [][TNext]_tvars
 =============================================================================
